@@ -208,6 +208,45 @@ fn c11_vacuity_twin() {
 }
 
 
+
+// ---- hash_elements depends only on the residues, not on base versus extension typing: the same base elements typed as quadratic
+// or cubic extension elements present exactly the same sponge states (lengths / capacity element included)
+macro_rules! typing {
+    ($name:ident, $H:ty, $perm:path, $stub:path) => {
+        #[kani::proof]
+        #[kani::unwind(16)]
+        #[kani::stub(alloc::fmt::format, nofmt)]
+        #[kani::stub($perm, $stub)]
+        #[kani::stub(F::new, new_stub)]
+        fn $name() {
+            use math::fields::{CubeExtension, QuadExtension};
+            let mut e = [F::ZERO; 6];
+            let mut i = 0; while i < 6 { let v: u64 = kani::any(); kani::assume(v < M64); e[i] = F::from_mont(v); i += 1; }
+            reset();
+            let d0 = <$H>::hash_elements(&e);
+            let (l0, n0) = snapshot();
+            let q = [QuadExtension::<F>::new(e[0], e[1]), QuadExtension::<F>::new(e[2], e[3]), QuadExtension::<F>::new(e[4], e[5])];
+            reset();
+            let d2 = <$H>::hash_elements(&q);
+            let (l2, n2) = snapshot();
+            let c = [CubeExtension::<F>::new(e[0], e[1], e[2]), CubeExtension::<F>::new(e[3], e[4], e[5])];
+            reset();
+            let d3 = <$H>::hash_elements(&c);
+            let (l3, n3) = snapshot();
+            assert!(n0 == n2 && n0 == n3);
+            let mut r = 0;
+            while r < ROWS { let mut k = 0; while k < 12 { assert!(l0[r][k] == l2[r][k]); assert!(l0[r][k] == l3[r][k]); k += 1; } r += 1; }
+            // native replay (stubs not applied): the real digests must agree
+            if n0 == 0 { assert!(d0 == d2 && d0 == d3); }
+            kani::cover!(n0 >= 1);
+        }
+    };
+}
+// @ob id=C11 tier=quick req=1 to=900 name=c11_rp64_hash_elements_typing funcs="Rp64_256::hash_elements" bounds="6 base elements = 3 quadratic = 2 cubic elements" sym="all elements" desc="hash_elements presents the same sponge states for the same residues typed as base, quadratic or cubic elements"
+typing!(c11_rp64_hash_elements_typing, Rp64_256, Rp64_256::apply_permutation, perm_stub);
+// @ob id=C11 tier=quick req=1 to=900 name=c11_rpjive_hash_elements_typing funcs="RpJive64_256::hash_elements" bounds="6 base elements = 3 quadratic = 2 cubic elements" sym="all elements" desc="hash_elements presents the same sponge states for the same residues typed as base, quadratic or cubic elements"
+typing!(c11_rpjive_hash_elements_typing, RpJive64_256, RpJive64_256::apply_permutation, perm_stub8);
+
 // ---- Rp62_248::merge_with_int: injective in the integer over all 2^64 values (quotient value / M ranges over 0..=4 for the 62-bit field)
 const M62: u64 = 4611624995532046337;
 use math::fields::f62::BaseElement as F62;
